@@ -2,6 +2,7 @@
 MAL-Toolbox Attack Graph Module
 """
 from __future__ import annotations
+import ast
 import copy
 import logging
 import json
@@ -335,8 +336,11 @@ class AttackGraph():
                 'is_necessary' in node_dict else True
             ag_node.mitre_info = str(node_dict['mitre_info']) if \
                 'mitre_info' in node_dict else None
-            ag_node.tags = node_dict['tags'] if \
-                'tags' in node_dict else []
+            node_tags = node_dict.get('tags', [])
+            if isinstance(node_tags, str):
+                # Files written by older versions stored str(list)
+                node_tags = ast.literal_eval(node_tags)
+            ag_node.tags = list(node_tags)
             ag_node.extras = node_dict.get('extras', {})
 
             # Add AttackGraphNode to AttackGraph
